@@ -48,7 +48,7 @@ ASSUMPTIONS = [
 REQUIRED_MONITORS = ("encrypt_calls_matched", "decrypt_calls_matched", "plaintext_windows_checked", "marker_checked", "results_correct", "rotations_ok", "priv_without_auth_nothing_in_clear")
 
 VARIANTS = ("vfstream8", "vfstream0", "vfstream16", "vfframe")
-OPS = ("get", "multiget", "getnext", "bulkget", "set", "multiset", "walk", "bulkwalk")
+OPS = ("get", "multiget", "getnext", "bulkget", "set", "multiset", "walk", "bulkwalk", "set-refused", "get-generr")
 BASE = (1, 3, 6, 1, 2, 1, 1)
 
 
@@ -77,6 +77,9 @@ def run_noauth_priv(R, variant, priv_pw, engine_id, marker):
     R.mon["priv_without_auth_nothing_in_clear"] += 1
 
 
+PADDING = [b""]  # octets the agent appends to the scoped PDU before encrypting it
+
+
 def run_case(R, level, variant, op, auth_pw, priv_pw, engine_id, ctx_name, boots, tshift, marker, rotate=None, ctx_engine=b"", report_ctx=None):
     hashname = "md5" if "md5" in level else "sha1"
     db = {BASE + (i, 0): ("str", b"value-%d-" % i + hashlib.sha256(b"v%d" % i).digest()[:10]) for i in range(1, 6)}
@@ -90,12 +93,15 @@ def run_case(R, level, variant, op, auth_pw, priv_pw, engine_id, ctx_name, boots
         clock=agent_clock,
     )
     agent_clock.now += tshift
+    if PADDING[0]:
+        w.agent.scoped_padding = PADDING[0]
+        R.mon["responses_with_block_padding"] += 1
     if report_ctx is not None:
         # the discovery report names ANOTHER context engine in its scoped PDU than the
         # authoritative engine that sends it: keys belong to the authoritative engine
         w.agent.report_context_engine = report_ctx
         R.mon["discovery_reports_naming_another_context_engine"] += 1
-    case = {"report_ctx": "hex:" + (report_ctx or b"").hex(), "level": level, "variant": variant, "op": op, "auth_pw": "hex:" + auth_pw.hex(), "priv_pw": "hex:" + priv_pw.hex(), "engine_id": "hex:" + engine_id.hex(),
+    case = {"padding": "hex:" + PADDING[0].hex(), "report_ctx": "hex:" + (report_ctx or b"").hex(), "level": level, "variant": variant, "op": op, "auth_pw": "hex:" + auth_pw.hex(), "priv_pw": "hex:" + priv_pw.hex(), "engine_id": "hex:" + engine_id.hex(),
             "ctx_name": "hex:" + ctx_name.hex(), "ctx_engine": "hex:" + ctx_engine.hex(), "boots": boots, "tshift": tshift, "marker": "hex:" + marker.hex()}
     w.seam.budget = 40
     privxf.CALLS.clear()
@@ -121,6 +127,27 @@ def run_case(R, level, variant, op, auth_pw, priv_pw, engine_id, ctx_name, boots
             res = rig.outcome(lambda: drive(c.set(OID(BASE + (4, 0)), rig.from_tuple(("str", marker)))))
             want = ("str", marker)
             got = rig.to_tuple(res[1]) if res[0] == "ok" else None
+        elif op in ("set-refused", "get-generr"):
+            # the agent refuses: its error response is encrypted like any other response
+            # and has to come out as the documented ErrorResponse, not as a decryption error
+            status = 17 if op == "set-refused" else 5
+
+            def refuse(req, resp, status=status):
+                return {"type": 0xA2, "request_id": resp["request_id"], "error_status": status, "error_index": 0 if op == "get-generr" else 1, "varbinds": [(o, ("null", None)) for o, _ in req["varbinds"]]}
+
+            w.agent.pdu_hook = refuse
+            if op == "set-refused":
+                res0 = rig.outcome(lambda: drive(c.set(OID(BASE + (4, 0)), rig.from_tuple(("str", marker)))))
+            else:
+                res0 = rig.outcome(lambda: drive(c.get(OID(BASE + (1, 0)))))
+            w.agent.pdu_hook = None
+            from puresnmp.exc import ErrorResponse as _ER
+
+            ok = res0[0] == "exc" and isinstance(res0[1], _ER) and getattr(res0[1], "error_status", None) == status
+            res = ("ok", None) if ok else ("exc", res0[1] if res0[0] == "exc" else RuntimeError("error-status %d came back as data: %r" % (status, res0[1])))
+            want = got = None
+            if ok:
+                R.mon["encrypted_error_responses_raised_as_documented"] += 1
         elif op == "multiset":
             res = rig.outcome(lambda: drive(c.multiset({OID(BASE + (4, 0)): rig.from_tuple(("opaque", marker)), OID(BASE + (5, 0)): rig.from_tuple(("int", 5))})))
             want = {BASE + (4, 0): ("opaque", marker), BASE + (5, 0): ("int", 5)}
@@ -302,7 +329,10 @@ def run(R):
         if i % 25 == 4:
             ctx_engine = rng.choice((b"\x00", bytes(5), bytes(12)))
         report_ctx = bytes([0x80]) + bytes(rng.getrandbits(8) for _ in range(rng.randint(4, 31))) if i % 7 == 3 else None
+        # one case in three: the agent pads the scoped PDU to a block size before encrypting
+        PADDING[0] = bytes(rng.choice((0, 1, 2, 7, 8, 0xFF)) for _ in range(rng.choice((1, 2, 3, 7, 8, 15)))) if i % 3 == 1 else b""
         run_case(R, level, variant, op, auth_pw, priv_pw, engine_id, ctx_name, boots, tshift, marker, rotate=rotate, ctx_engine=ctx_engine, report_ctx=report_ctx)
+        PADDING[0] = b""
         if i % 10 == 7:
             run_noauth_priv(R, variant, priv_pw, engine_id, marker)
 
@@ -334,6 +364,7 @@ def ambiguous_pairs(R):
 def replay(R, v):
     c = v["case"]
     h = lambda k: bytes.fromhex(c[k][4:])  # noqa: E731
+    PADDING[0] = bytes.fromhex(c.get("padding", "hex:")[4:])
     if c.get("class") == "priv-without-auth":
         run_noauth_priv(R, c["variant"], h("priv_pw"), h("engine_id"), h("marker"))
         return
